@@ -34,7 +34,7 @@ func TestC08(t *testing.T) {
 					return false
 				}
 				switch f.Cat {
-				case core.CatComponents, core.CatRelation, core.CatHandles, core.CatScan, core.CatInvIndex, core.CatInvTable, core.CatInvNode, core.CatInvPool:
+				case core.CatComponents, core.CatRelation, core.CatHandles, core.CatScan, core.CatInvIndex, core.CatInvTable, core.CatInvNode, core.CatInvPool, core.CatObserve:
 					return true
 				}
 				return false
